@@ -88,7 +88,7 @@ def construct(kind, m, src=None):
 
 class C15(World):
     ID = "C15"
-    RUNS = {"quick": 20000, "thorough": 800000}
+    RUNS = {"quick": 30000, "thorough": 800000}
     WALL = {"quick": 110.0, "thorough": 1700.0}
     BLOCK = 25
     RULE = (
